@@ -252,6 +252,7 @@ func runHistory(c HCase, r *runlog.R) error {
 		view view
 		file string
 		step int
+		refs bool // the document has references
 	}
 	var keep []kept
 	sawFile, sawSpare, sawReuse, fileThenOther := false, false, false, false
@@ -308,7 +309,7 @@ func runHistory(c HCase, r *runlog.R) error {
 			return fmt.Errorf("step %d: %v\nhistory:%s\ndocument: %s", si, err, describeStep(si), clip(text))
 		}
 		if err == nil {
-			keep = append(keep, kept{cfg, hOptions(c.Backing[lo:hi]), want, file, si})
+			keep = append(keep, kept{cfg, hOptions(c.Backing[lo:hi]), want, file, si, strings.Contains(string(text), "${")})
 		}
 		// the caller's slice is the caller's
 		for i, o := range backing {
@@ -342,6 +343,69 @@ func runHistory(c HCase, r *runlog.R) error {
 	for _, l := range []string{"file rewritten between loads", "a load fails", "a generic Unpack fails (reference)", "hostile target: error names the step's file"} {
 		r.ClassIf(seen[l], l)
 	}
+	// all configs of the history merged into one: an error about a setting that exactly one of them has names the
+	// file that config was read from (none if it was loaded from memory)
+	if len(keep) >= 2 {
+		merged := ucfg.New()
+		plain := true
+		for _, k := range keep {
+			for _, f := range k.cfg.GetFields() {
+				if strings.Contains(f, ".") {
+					plain = false // a dotted name (loaded without PathSep): the first segment of an error path is ambiguous
+				}
+			}
+			if k.refs {
+				plain = false // a reference is evaluated in the merged config: the statement does not say whose setting fails
+			}
+			if err := uc.Safe("Merge", func() error { return merged.Merge(k.cfg) }); err != nil {
+				return fmt.Errorf("merging the config of step %d into an empty config fails: %v\nhistory:%s", k.step, err, describeStep(len(c.Steps)-1))
+			}
+		}
+		for _, t := range hostileTargets[:2] {
+			to := reflect.New(t)
+			err := uc.Safe("Unpack", func() error { return merged.Unpack(to.Interface()) })
+			if isPanic(err) {
+				return err
+			}
+			if err == nil {
+				continue
+			}
+			msg := errText(err)
+			// whatever is named is a file of the history
+			rest := msg
+			for _, k := range keep {
+				if k.file != "" {
+					rest = strings.ReplaceAll(rest, sourceNote(k.file), "")
+				}
+			}
+			if strings.Contains(rest, "(source:'") {
+				return fmt.Errorf("merged config: the error names a source that is none of the merged files: %s\nhistory:%s", firstLine(msg), describeStep(len(c.Steps)-1))
+			}
+			ms := errPathRe.FindAllStringSubmatch(msg, -1)
+			if !plain || len(ms) == 0 {
+				continue
+			}
+			top := strings.SplitN(ms[len(ms)-1][1], ".", 2)[0]
+			var owners []kept
+			for _, k := range keep {
+				if k.cfg.HasField(top) {
+					owners = append(owners, k)
+				}
+			}
+			if len(owners) != 1 {
+				continue
+			}
+			seen["merged config: error about a setting only one config has"] = true
+			o := owners[0]
+			if o.file == "" && strings.Contains(msg, "(source:'") {
+				return fmt.Errorf("merged config: the setting %q comes from the config of step %d, loaded from memory, but the error names a source: %s\nhistory:%s", top, o.step, firstLine(msg), describeStep(len(c.Steps)-1))
+			}
+			if o.file != "" && (!strings.Contains(msg, sourceNote(o.file)) || strings.Count(msg, "(source:'") != strings.Count(msg, sourceNote(o.file)[1:])) {
+				return fmt.Errorf("merged config: the setting %q was read from %s (step %d), the error does not name that file (only): %s\nhistory:%s", top, o.file, o.step, firstLine(msg), describeStep(len(c.Steps)-1))
+			}
+		}
+	}
+	r.ClassIf(seen["merged config: error about a setting only one config has"], "merged config: error about a setting only one config has")
 	r.Class(fmt.Sprintf("steps: %d", len(c.Steps)))
 	r.Class(fmt.Sprintf("shared options: %d", len(backing)))
 	if cap(backing) > len(backing) {
@@ -391,7 +455,7 @@ func genHistory(t *rapid.T) HCase {
 		d := g.obj(t, 3, 1)
 		d.R = 0
 		// a few references
-		if pick(t, 2, "refs") == 0 {
+		if pick(t, 3, "refs") == 0 {
 			n := 1 + pick(t, 2, "nrefs")
 			for j := 0; j < n; j++ {
 				k := rapid.SampledFrom(fKeys).Draw(t, "refkey")
@@ -427,7 +491,7 @@ func genHistory(t *rapid.T) HCase {
 
 var subHist = runlog.Register(&runlog.Sub[HCase]{
 	Name: "histories",
-	Rule: "1-3 documents (settings trees as in 'faults', spelled with dotted keys per container, some settings replaced by references to the document, to an Env config, a Resolve function, an OS environment variable, a missing name) live in one file each. ONE option slice is built by appending 0-6 options (PathSep, VarExp, ResolveEnv, ResolveNOOP, Env(cfg), Resolve(fn)) one by one - capacity as append grows it, exactly the length, or allocated with 1-4 spare slots - and 2-6 loads in a row (front-end, file or memory, which document, optionally rewriting the file first with another document) each receive a window shared[lo:hi] of it (whole slice half of the time), so windows have spare capacity behind them that may hold options later loads use. Oracle: every load is compared with yaml/json/hjson NewConfig of the same bytes with freshly built options of the same kinds: same load error, canonically equal generic data, same error text for the generic Unpack and for three hostile typed targets (map[string]int, map[string]map[string]bool, map[string][]map[string][2]int), where the file side may differ only by \" (source:'<file of this step>')\" notes, may name no other file, and the memory side names no source; Unpack receives the shared window or fresh options. After every load the elements of the caller's slice are identical (same function values) to what the caller put there. After the whole history every config loaded on the way is observed again and must report exactly what it reported before (it names its own file, not one loaded later). Non-trivial: a file load is followed by another load, and a window with spare capacity was passed. Distinct: hash of the whole case.",
+	Rule: "1-3 documents (settings trees as in 'faults', spelled with dotted keys per container, some settings replaced by references to the document, to an Env config, a Resolve function, an OS environment variable, a missing name) live in one file each. ONE option slice is built by appending 0-6 options (PathSep, VarExp, ResolveEnv, ResolveNOOP, Env(cfg), Resolve(fn)) one by one - capacity as append grows it, exactly the length, or allocated with 1-4 spare slots - and 2-6 loads in a row (front-end, file or memory, which document, optionally rewriting the file first with another document) each receive a window shared[lo:hi] of it (whole slice half of the time), so windows have spare capacity behind them that may hold options later loads use. Oracle: every load is compared with yaml/json/hjson NewConfig of the same bytes with freshly built options of the same kinds: same load error, canonically equal generic data, same error text for the generic Unpack and for three hostile typed targets (map[string]int, map[string]map[string]bool, map[string][]map[string][2]int), where the file side may differ only by \" (source:'<file of this step>')\" notes, may name no other file, and the memory side names no source; Unpack receives the shared window or fresh options. After every load the elements of the caller's slice are identical (same function values) to what the caller put there. After the whole history every config loaded on the way is observed again and must report exactly what it reported before (it names its own file, not one loaded later); then all of them are merged into one empty config and unpacked into two of the hostile targets: any source named is a file of the history, and - documents without references and without unsplit dotted names - an error about a top-level setting that exactly one of the configs has names the file that config was read from (none if it came from memory). Non-trivial: a file load is followed by another load, and a window with spare capacity was passed. Distinct: hash of the whole case.",
 	Gen:  genHistory,
 	Run:  runHistory,
 })
